@@ -27,11 +27,27 @@ from typing import Any, Callable, Dict, List, Optional, Tuple
 from asl.absint import UNKNOWN, Machine
 from asl.cfg import cfg_of
 from asl.loader import AnalysisError, norm
+from asl.loader import own_nodes as own_nodes_
 from .common import make_resolver
 from .lockstep import StepOps
 
 EXC_NAMES = {"ValueError", "TypeError", "RuntimeError", "StopAsyncIteration", "StopIteration", "KeyError",
              "IndexError", "AttributeError", "LookupError", "Exception", "BaseException"}
+
+
+class _Undecided(Exception):
+    pass
+
+
+class _W:
+    """an entry of a model list while Python's own heapq / sort works on it: ``<`` is the model's"""
+    __slots__ = ("ops", "v")
+
+    def __init__(self, ops, v):
+        self.ops, self.v = ops, v
+
+    def __lt__(self, other):
+        return self.ops.lt(self.v, other.v)
 
 
 class ToolOps(StepOps):
@@ -45,6 +61,8 @@ class ToolOps(StepOps):
         self.truths: Dict[Any, bool] = truths or {}
         self.ranks: Dict[Any, int] = ranks or {}
         self.seq_items: Dict[int, List[Any]] = {}
+        self._wrappers: Dict[str, Any] = {}
+        self.lambdas: Dict[int, ast.Lambda] = {}
 
     def _pull(self, it, env):
         if it[0] == "SEQIT":
@@ -98,9 +116,18 @@ class ToolOps(StepOps):
                 for a in node.args:
                     v = self.ev.eval(a.value if isinstance(a, ast.Starred) else a, env)
                     el = self._elements(v, env) if isinstance(a, ast.Starred) else [v]
-                    if el is None or not all(self._is_iter(x) for x in el):
+                    if el is None:
                         return UNKNOWN
-                    its.extend(el)
+                    for x in el:
+                        if not self._is_iter(x):
+                            inner = self._elements(x, env)  # a finite sequence of the model (``range(n)``)
+                            if inner is None or self._is_list(x):
+                                return UNKNOWN
+                            n_seq = env.get("@seqs", 0)
+                            env["@seqs"] = n_seq + 1
+                            self.seq_items[n_seq] = list(inner)
+                            x = ("SEQIT", n_seq)
+                        its.append(x)
                 return ("ZIP", tuple(its)) if its else UNKNOWN
         return super().call(func, args, kwargs, node, env)
 
@@ -115,6 +142,12 @@ class ToolOps(StepOps):
             a, b = self.ranks[left], self.ranks[right]
             if op in ("Lt", "LtE", "Gt", "GtE", "Eq", "NotEq"):
                 return {"Lt": a < b, "LtE": a <= b, "Gt": a > b, "GtE": a >= b, "Eq": a == b, "NotEq": a != b}[op]
+        if op in ("Lt", "Gt") and isinstance(left, tuple) and isinstance(right, tuple) \
+                and (left[:1] == ("REV",) or self._plain_tuple(left)):
+            try:
+                return self.lt(left, right) if op == "Lt" else self.lt(right, left)
+            except _Undecided:
+                return UNKNOWN
         r = super().compare(op, left, right, env)
         if r is UNKNOWN and op in ("Eq", "NotEq"):
             # values returned by the cell's callable model are distinct constants ("v", i) / a marker string
@@ -131,7 +164,131 @@ class ToolOps(StepOps):
                 return op == "IsNot"
         return r
 
+    # ---- the model's ordering: ranked symbols, ints, reversed wrappers, tuples (lexicographic, == first)
+    def eq(self, a, b) -> bool:
+        if isinstance(a, tuple) and isinstance(b, tuple) and a[:1] == ("REV",) and b[:1] == ("REV",):
+            if a[3] == "rank":
+                return not (self.lt(a[1], b[1]) or self.lt(b[1], a[1]))
+            return a[2] == b[2]  # no __eq__ of its own: identity
+        if isinstance(a, tuple) and isinstance(b, tuple) and a in self.ranks and b in self.ranks:
+            return self.ranks[a] == self.ranks[b]
+        if isinstance(a, int) and isinstance(b, int):
+            return a == b
+        if self._plain_tuple(a) and self._plain_tuple(b):
+            return len(a) == len(b) and all(self.eq(x, y) for x, y in zip(a, b))
+        if isinstance(a, tuple) and isinstance(b, tuple) and a[:1] == ("item",) and b[:1] == ("item",):
+            return a == b
+        raise _Undecided()
+
+    def lt(self, a, b) -> bool:
+        if isinstance(a, tuple) and isinstance(b, tuple) and a[:1] == ("REV",) and b[:1] == ("REV",):
+            return self.lt(b[1], a[1])
+        if isinstance(a, tuple) and isinstance(b, tuple) and a in self.ranks and b in self.ranks:
+            return self.ranks[a] < self.ranks[b]
+        if isinstance(a, int) and isinstance(b, int) and not isinstance(a, bool) and not isinstance(b, bool):
+            return a < b
+        if self._plain_tuple(a) and self._plain_tuple(b):
+            for x, y in zip(a, b):
+                if not self.eq(x, y):
+                    return self.lt(x, y)
+            return len(a) < len(b)
+        raise _Undecided()
+
+    @staticmethod
+    def _plain_tuple(v) -> bool:
+        return isinstance(v, tuple) and (not v or not isinstance(v[0], str))
+
+    def _wrapper_class(self, name: str):
+        """a library class wrapping one value to reverse its ordering: ('REV', eq semantics) / ('ID',) / None"""
+        if name in self._wrappers:
+            return self._wrappers[name]
+        out = None
+        r = self.ctx.pkg.resolve_global(self.module, name)
+        info = self.ctx.pkg.lib_class(r.qual) if r.kind == "lib" else None
+        if info is not None and "__lt__" in info.methods and "__init__" in info.methods:
+            init, lt = info.methods["__init__"], info.methods["__lt__"]
+            stores = [s_ for s_ in own_nodes_(init.node) if isinstance(s_, ast.Assign) and isinstance(s_.targets[0], ast.Attribute)
+                      and isinstance(s_.value, ast.Name)]
+            rets = [s_ for s_ in own_nodes_(lt.node) if isinstance(s_, ast.Return)]
+            if len(init.param_names()) == 2 and len(stores) == 1 and len(rets) == 1 and isinstance(rets[0].value, ast.Compare) \
+                    and len(rets[0].value.ops) == 1 and isinstance(rets[0].value.ops[0], ast.Lt):
+                f = stores[0].targets[0].attr
+                me, other = lt.param_names()[0], lt.param_names()[1]
+                left, right = norm(rets[0].value.left), norm(rets[0].value.comparators[0])
+                eq = info.methods.get("__eq__")
+                if eq is None:
+                    eqsem = "identity"
+                else:
+                    er = [s_ for s_ in own_nodes_(eq.node) if isinstance(s_, ast.Return)]
+                    text = norm(er[0].value) if len(er) == 1 else ""
+                    a_, b_ = f"{eq.param_names()[0]}.{f}", f"{eq.param_names()[1]}.{f}"
+                    eqsem = "rank" if text in (f"not ({a_} < {b_} or {b_} < {a_})", f"not ({b_} < {a_} or {a_} < {b_})",
+                                               f"{a_} == {b_}", f"{b_} == {a_}") else None
+                if (left, right) == (f"{other}.{f}", f"{me}.{f}") and eqsem:
+                    out = ("REV", eqsem)
+                elif (left, right) == (f"{me}.{f}", f"{other}.{f}") and eqsem == "rank":
+                    out = ("ID",)
+        self._wrappers[name] = out
+        return out
+
+    def _sort(self, base, call, env, ev) -> bool:
+        """``L.sort(key=..., reverse=...)`` on a list object of the model: Python's own (stable) sort is
+        run on the ranks of the sort keys; a key that is not ranked leaves the list unknown."""
+        items = list(self._get(env, base))
+        key_node = next((k.value for k in call.keywords if k.arg == "key"), None)
+        rev_node = next((k.value for k in call.keywords if k.arg == "reverse"), None)
+        if any(k.arg not in ("key", "reverse") for k in call.keywords):
+            self._set(env, base, [UNKNOWN for _ in items])
+            return False
+        reverse = ev.eval(rev_node, env) if rev_node is not None else False
+
+        def key_of(x):
+            if key_node is None:
+                return x
+            if isinstance(key_node, ast.Lambda) and len(key_node.args.args) == 1:
+                env2 = dict(env)
+                env2[key_node.args.args[0].arg] = x
+                return ev.eval(key_node.body, env2)
+            if isinstance(key_node, ast.Call) and self._resolved(key_node.func) == "itemgetter" and len(key_node.args) == 1 \
+                    and isinstance(key_node.args[0], ast.Constant) and isinstance(x, tuple):
+                return x[key_node.args[0].value]
+            return UNKNOWN
+
+        keys = [key_of(x) for x in items]
+        try:
+            if not isinstance(reverse, bool) or any(k is UNKNOWN for k in keys):
+                raise _Undecided()
+            order = sorted(range(len(items)), key=lambda i: _W(self, keys[i]), reverse=reverse)
+        except _Undecided:
+            self._set(env, base, [UNKNOWN for _ in items])
+            return False
+        self._set(env, base, [items[i] for i in order])
+        return True
+
+    def resolves(self, call, env) -> bool:
+        if isinstance(call.func, ast.Name) and call.func.id in env:
+            v = env[call.func.id]
+            return not (isinstance(v, tuple) and v[:1] in (("FN",), ("LAMBDA",)))
+        return True
+
+    def callee_unit(self, call, env):
+        """the library function a local name is bound to in *this* execution (``ordered = A if flag else b``)"""
+        if isinstance(call.func, ast.Name):
+            v = env.get(call.func.id)
+            if isinstance(v, tuple) and v[:1] == ("GLOBAL",):
+                r = self.ctx.pkg.resolve_global(self.module, v[1])
+                return self.ctx.pkg.lib_unit(r.qual) if r.kind == "lib" else None
+        return None
+
+    def other(self, e, env, ev):
+        if isinstance(e, ast.Lambda):
+            self.lambdas[id(e)] = e
+            return ("LAMBDA", id(e))
+        return super().other(e, env, ev)
+
     def truth(self, v, env):
+        if isinstance(v, tuple) and v[:1] in (("LAMBDA",), ("REV",)):
+            return True
         if isinstance(v, tuple) and v[:1] == ("FN",):
             return True
         if isinstance(v, tuple) and v in self.truths:
@@ -164,6 +321,53 @@ class ToolOps(StepOps):
                     vals[id(call)] = UNKNOWN  # called with something the cell's model does not know: undecided
                 env["@callvals"] = vals
                 return
+            if isinstance(fv, tuple) and fv[:1] == ("LAMBDA",) and not call.keywords:
+                lam = self.lambdas[fv[1]]
+                if len(lam.args.args) == len(call.args) and not any(isinstance(a, ast.Starred) for a in call.args):
+                    env2 = dict(env)
+                    for p_, a in zip(lam.args.args, call.args):
+                        env2[p_.arg] = ev.eval(a, env)
+                    vals = dict(env.get("@callvals", {}))
+                    vals[id(call)] = ev.eval(lam.body, env2)
+                    env["@callvals"] = vals
+                    return
+            if isinstance(fv, tuple) and fv[:1] == ("GLOBAL",) and len(call.args) == 1 and not call.keywords:
+                w = self._wrapper_class(fv[1])
+                if w is not None:
+                    arg = ev.eval(call.args[0], env)
+                    n_obj = env.get("@objects", 0)
+                    env["@objects"] = n_obj + 1
+                    vals = dict(env.get("@callvals", {}))
+                    vals[id(call)] = ("REV", arg, n_obj, w[1]) if w[0] == "REV" else arg
+                    env["@callvals"] = vals
+                    return
+            hq = self._resolved(f) if self._resolved_kind(f) == "stdlib" else ""
+            if hq in ("heapify", "heapreplace", "heappush", "heappop", "heappushpop") and call.args and not call.keywords \
+                    and self.ctx.pkg.resolve_expr_global(self.module, f).qual.startswith("heapq."):
+                import heapq as _hq
+                base = ev.eval(call.args[0], env)
+                if self._is_list(base):
+                    heap = [_W(self, x) for x in self._get(env, base)]
+                    extra = [_W(self, ev.eval(a, env)) for a in call.args[1:]]
+                    try:
+                        result = getattr(_hq, hq)(heap, *extra)
+                        result = result.v if isinstance(result, _W) else result
+                        self._set(env, base, [w_.v for w_ in heap])
+                    except (_Undecided, IndexError):
+                        result = UNKNOWN
+                        self._set(env, base, [UNKNOWN for _ in heap])
+                    vals = dict(env.get("@callvals", {}))
+                    vals[id(call)] = result
+                    env["@callvals"] = vals
+                    return
+            if isinstance(f, ast.Attribute) and f.attr == "sort" and not call.args:
+                base = ev.eval(f.value, env)
+                if self._is_list(base):
+                    done = self._sort(base, call, env, ev)
+                    vals = dict(env.get("@callvals", {}))
+                    vals[id(call)] = None if done else UNKNOWN
+                    env["@callvals"] = vals
+                    return
             if isinstance(f, ast.Attribute) and f.attr == "clear" and not call.args:
                 base = ev.eval(f.value, env)
                 if self._is_list(base):
@@ -217,8 +421,8 @@ def _observe_call(make, srcs: List[_Src], calls: List[Any]):
 
 class _Sym:
     """an item of the oracle run: truth value, rank (ordering) and symbolic addition as chosen by the cell"""
-    def __init__(self, sym, truth=True, rank=0):
-        self.sym, self.truth, self.rank = sym, truth, rank
+    def __init__(self, sym, truth=True, rank=0, eq_by_rank=False):
+        self.sym, self.truth, self.rank, self.eq_by_rank = sym, truth, rank, eq_by_rank
 
     def __bool__(self):
         return self.truth
@@ -239,6 +443,8 @@ class _Sym:
         return hash(self.sym)
 
     def __eq__(self, other):
+        if self.eq_by_rank and isinstance(other, _Sym):
+            return self.rank == other.rank  # "equal elements": == agrees with the ordering
         return isinstance(other, _Sym) and other.sym == self.sym
 
 
@@ -499,6 +705,61 @@ def _collect_cells(stdlib_fn):
         yield Cell(f"{n} items", [("IT", 0)], {}, {0: n}, oracle)
 
 
+def _sorted_cells():
+    for n in range(0, 4):
+        for ranks in _it.product((0, 1, 2), repeat=n):
+            for with_key in (False, True):
+                for reverse in (False, True):
+                    rk = {("item", 0, i): ranks[i] for i in range(n)}
+                    rk.update({("key", ("item", 0, i)): ranks[i] for i in range(n)})
+
+                    def oracle(n=n, ranks=ranks, with_key=with_key, reverse=reverse):
+                        calls: List[Any] = []
+                        src = _Src([_Sym(("item", 0, i), rank=ranks[i]) for i in range(n)])
+
+                        def key(x):
+                            calls.append(("K", (x.sym,)))
+                            return _Sym(("key", x.sym), rank=x.rank)
+                        kw: Dict[str, Any] = {"reverse": reverse}
+                        if with_key:
+                            kw["key"] = key
+                        obs = _observe_call(lambda: sorted(src, **kw), [src], calls)
+                        r = obs[4]
+                        return obs[:4] + ((("LIST",) + _unsym(r)) if isinstance(r, list) else r,)
+                    kw2: Dict[str, Any] = {"reverse": reverse}
+                    if with_key:
+                        kw2["key"] = ("FN", "K")
+                    yield Cell(f"{n} items ranked {ranks or '-'}, {'key' if with_key else 'no key'}, reverse={reverse}",
+                               [("IT", 0)], kw2, {0: n}, oracle, fns={"K": lambda a: ("key", a[0])}, ranks=rk)
+
+
+def _nbest_cells(stdlib_fn):
+    import heapq as _hq
+    fn = getattr(_hq, stdlib_fn)
+    for n_items in range(0, 5):
+        for ranks in _it.product((0, 1), repeat=n_items):
+            for n in (0, 1, 2, 3):
+                for with_key in (False, True):
+                    if n_items == 4 and (with_key or n == 0):
+                        continue
+                    rk = {("item", 0, i): ranks[i] for i in range(n_items)}
+                    rk.update({("key", ("item", 0, i)): ranks[i] for i in range(n_items)})
+
+                    def oracle(n_items=n_items, ranks=ranks, n=n, with_key=with_key):
+                        calls: List[Any] = []
+                        src = _Src([_Sym(("item", 0, i), rank=ranks[i], eq_by_rank=True) for i in range(n_items)])
+
+                        def key(x):
+                            calls.append(("K", (x.sym,)))
+                            return _Sym(("key", x.sym), rank=x.rank, eq_by_rank=True)
+                        obs = _observe_call(lambda: fn(n, src, key=key) if with_key else fn(n, src), [src], calls)
+                        r = obs[4]
+                        return obs[:4] + ((("LIST",) + _unsym(r)) if isinstance(r, list) else r,)
+                    kw2: Dict[str, Any] = {"key": ("FN", "K")} if with_key else {}
+                    yield Cell(f"{n_items} items ranked {ranks or '-'}, n={n}, {'key' if with_key else 'no key'}",
+                               [("IT", 0), n], kw2, {0: n_items}, oracle, fns={"K": lambda a: ("key", a[0])}, ranks=rk)
+
+
 AGGREGATES: List[Tuple[str, Callable[[], Any]]] = [
     ("functools.reduce", _reduce_cells),
     ("builtins.sum", _sum_cells),
@@ -509,6 +770,9 @@ AGGREGATES: List[Tuple[str, Callable[[], Any]]] = [
     ("builtins.list", lambda: _collect_cells(list)),
     ("builtins.tuple", lambda: _collect_cells(tuple)),
     ("builtins.set", lambda: _collect_cells(set)),
+    ("builtins.sorted", _sorted_cells),
+    ("heapq.nlargest", lambda: _nbest_cells("nlargest")),
+    ("heapq.nsmallest", lambda: _nbest_cells("nsmallest")),
 ]
 
 def _zip_cells(strict: bool):
@@ -674,7 +938,7 @@ CONSUMPTION = ("yields", "items taken", "calls", "end", "result")  # C05, C06: t
 
 
 def aggregate_tables(ctx, rid: str, fields=RESULT_AND_CALLS) -> None:
-    ctx.rule(rid, "aggregations as tables: reduce, sum, all, any, min, max, list, tuple, set are evaluated abstractly over sources "
+    ctx.rule(rid, "aggregations as tables: reduce, sum, all, any, min, max, sorted, nlargest, nsmallest, list, tuple, set are evaluated abstractly over sources "
                   "of 0-3 symbolic items (every truth pattern, every ranking with ties, with / without key, default, initial, "
                   "start); the result (the very item, the symbolic sum with its operand order), the items taken, the calls "
                   "of the user's callable and the exception class equal those of the stdlib function executed on the same symbols")
